@@ -9,8 +9,12 @@ accesses are renamed to scalars: X[i, j] -> X_ij, C[j, i] -> C_ji, X_rs[i] -> Xr
 array elements become let-bindings of the same names, and the function returns the stored values.
 The loop nest itself (for n_iter / for i / for i, j>i), the initialisation, the guards and the final
 normalisation are recognised statement by statement and must have exactly the shape that the
-skeleton `sweep` / `prinz_run` of Model/Prinz.v implements; the accumulation of `logl` (used only by
-the convergence test) is recognised and left out.  Anything else raises TranslatorReject.
+skeleton `sweep` / `prinz_run` of Model/Prinz.v implements.  Round 2: the `logl +=` terms at the end of
+both loop bodies and the test of the convergence `if` are translated too (`*_diag_logl`, `*_offdiag_logl`,
+`*_continue`, over `Ops` + `LOps`: np.log -> klog, C's log10 -> klog10, abs -> kabs); the shape
+`logl = 0` / `if <test>: oldlogl = logl else: break` / `if n_iter == max_iter - 1: warnings.warn(` is
+recognised and is what `prinz_loop` / `prinz_run_stop` of Model/Prinz.v implement.  Anything else raises
+TranslatorReject.
 
 The .pyx is made parseable by removing `cimport` lines and the `cdef extern` block, turning
 `cdef <type> a, b = e` into `b = e` (declarations without initialiser vanish) and dropping the C types
@@ -126,9 +130,10 @@ def _sub_name(e, idx_ok):
 
 
 class Ex:
-    def __init__(self, idx_ok, sqrt_names):
+    def __init__(self, idx_ok, sqrt_names, extra_calls=None):
         self.idx_ok = idx_ok
         self.sqrt_names = sqrt_names
+        self.extra_calls = extra_calls or {}      # call text -> LOps field (only in logl / convergence test)
 
     def num(self, e, env):
         if isinstance(e, ast.Constant):
@@ -157,7 +162,12 @@ class Ex:
                 reject(e, "unsupported operator")
             return "(%s o %s %s)" % (ops[type(e.op)], self.num(e.left, env), self.num(e.right, env))
         if isinstance(e, ast.Call):
-            if e.keywords or len(e.args) != 1 or ast.unparse(e.func) not in self.sqrt_names:
+            fn = ast.unparse(e.func)
+            if e.keywords or len(e.args) != 1:
+                reject(e, "unsupported call")
+            if fn in self.extra_calls:
+                return "(%s lo %s)" % (self.extra_calls[fn], self.num(e.args[0], env))
+            if fn not in self.sqrt_names:
                 reject(e, "unsupported call (only the square root is expected)")
             return "(ksqrt o %s)" % self.num(e.args[0], env)
         reject(e, "unsupported expression")
@@ -235,6 +245,11 @@ def _u(s):
     return ast.unparse(s)
 
 
+def _logl_term(s, ex, env):
+    """`if (X[..] > 0): logl += e`  ->  `(if test then e else 0)` over Ops + LOps."""
+    return "(if %s then %s else (kofZ o (0)%%Z))" % (ex.test(s.test, env), ex.num(s.body[0].value, env))
+
+
 def _expect(cond, node, why):
     if not cond:
         reject(node, why)
@@ -245,7 +260,7 @@ def _for_range(s, var, rng_texts):
             and _u(s.iter) in rng_texts)
 
 
-def _function(fn, rel, nvar, sqrt_names, prefix):
+def _function(fn, rel, nvar, sqrt_names, prefix, log_calls):
     """Recognise the whole function; return the two translated bodies."""
     b = strip_doc(fn.body)
     b = [s for s in b if not isinstance(s, ast.Pass)]
@@ -279,6 +294,8 @@ def _function(fn, rel, nvar, sqrt_names, prefix):
     _expect(dbody and _is_logl_update(dbody[-1]), d, "%s: diagonal loop must end with the logl accumulation" % rel)
     ex = Ex({("i", "i"), ("i",)}, sqrt_names)
     diag = ex.block(dbody[:-1], {"C_ii", "Crs_i", "Xrs_i", "X_ii"}, ["X_ii", "Xrs_i"])
+    exl = Ex({("i", "i"), ("i",)}, set(), log_calls)
+    diag_l = _logl_term(dbody[-1], exl, {"C_ii", "Crs_i", "Xrs_i", "X_ii"})
     # pair loops
     p = it[2]
     _expect(_for_range(p, "i", {"range(%s - 1)" % x for x in n_expr}), p, "%s: expected the outer pair loop over range(n - 1)" % rel)
@@ -289,9 +306,14 @@ def _function(fn, rel, nvar, sqrt_names, prefix):
     ex = Ex({("i", "j"), ("j", "i"), ("i",), ("j",)}, sqrt_names)
     off = ex.block(obody[:-1], {"C_ij", "C_ji", "Crs_i", "Crs_j", "Xrs_i", "Xrs_j", "X_ij", "X_ji"},
                    ["X_ij", "X_ji", "Xrs_i", "Xrs_j"])
-    # convergence test
-    _expect(_u(it[3]) == "if abs(logl - oldlogl) > tol:\n    oldlogl = logl\nelse:\n    break", it[3],
+    exl = Ex({("i", "j"), ("j", "i"), ("i",), ("j",)}, set(), log_calls)
+    off_l = _logl_term(obody[-1], exl, {"C_ij", "C_ji", "Crs_i", "Crs_j", "Xrs_i", "Xrs_j", "X_ij", "X_ji"})
+    # convergence test: `if <test>: oldlogl = logl else: break`; the test itself is translated
+    ct = it[3]
+    _expect(isinstance(ct, ast.If) and [_u(x) for x in ct.body] == ["oldlogl = logl"]
+            and len(ct.orelse) == 1 and isinstance(ct.orelse[0], ast.Break), ct,
             "%s: unexpected convergence test" % rel)
+    cont = Ex(set(), set(), {"abs": "kabs"}).test(ct.test, {"tol", "logl", "oldlogl"})
     # -- epilogue
     ep = b[k + 1:]
     et = [_u(s) for s in ep]
@@ -305,8 +327,18 @@ def _function(fn, rel, nvar, sqrt_names, prefix):
         "diag": "Definition %s_diag {K : Type} (o : Ops K) (C_ii Crs_i Xrs_i X_ii : K) : K * K :=" % prefix,
         "off": "Definition %s_offdiag {K : Type} (o : Ops K) (C_ij C_ji Crs_i Crs_j Xrs_i Xrs_j X_ij X_ji : K) : K * K * K * K :=" % prefix,
     }
-    return ["(* diagonal update: `for i in range(n)` body of %s *)" % rel, sig["diag"], "  " + diag + ".", "",
-            "(* pairwise update: `for i .. for j in range(i+1, n)` body of %s *)" % rel, sig["off"], "  " + off + ".", ""]
+    stop = ["(* the `logl +=` term of the diagonal loop of %s, on the values just stored *)" % rel,
+            "Definition %s_diag_logl {K : Type} (o : Ops K) (lo : LOps K) (C_ii Crs_i Xrs_i X_ii : K) : K :=" % prefix,
+            "  " + diag_l + ".", "",
+            "(* the `logl +=` term of the pair loop of %s, on the values just stored *)" % rel,
+            "Definition %s_offdiag_logl {K : Type} (o : Ops K) (lo : LOps K) (C_ij C_ji Crs_i Crs_j Xrs_i Xrs_j X_ij X_ji : K) : K :=" % prefix,
+            "  " + off_l + ".", "",
+            "(* the convergence test of %s: continue (`oldlogl = logl`) when true, `break` when false *)" % rel,
+            "Definition %s_continue {K : Type} (o : Ops K) (lo : LOps K) (tol logl oldlogl : K) : bool :=" % prefix,
+            "  " + cont + ".", ""]
+    return (["(* diagonal update: `for i in range(n)` body of %s *)" % rel, sig["diag"], "  " + diag + ".", "",
+             "(* pairwise update: `for i .. for j in range(i+1, n)` body of %s *)" % rel, sig["off"], "  " + off + ".", ""],
+            stop)
 
 
 def translate(repo):
@@ -322,7 +354,8 @@ def translate(repo):
     a = [x.arg for x in fn.args.args]
     if a != ["C", "tol", "max_iter"]:
         reject(fn, "unexpected signature %s" % a)
-    out += _function(fn, PY_REL, None, {"np.sqrt"}, "py")
+    upd, stop_py = _function(fn, PY_REL, None, {"np.sqrt"}, "py", {"np.log": "klog"})
+    out += upd
     # ---- Cython
     try:
         with open(os.path.join(repo, PYX_REL)) as f:
@@ -339,10 +372,19 @@ def translate(repo):
     a = [x.arg for x in fn.args.args]
     if a != ["C", "tol", "max_iter"]:
         reject(fn, "unexpected signature %s" % a)
-    out += _function(fn, PYX_REL, "n_states", {"sqrt"}, "pyx")
+    if not re.search(r"cdef\s+extern\s+from\s+\"math.h\"[^\n]*:\s*\n(?:\s+double\s+\w+\(double x\)\s*\n)*\s+double\s+log10\(double x\)", src):
+        raise TranslatorReject("%s: `log10` is not C's double log10(double)" % PYX_REL)
+    upd, stop_pyx = _function(fn, PYX_REL, "n_states", {"sqrt"}, "pyx", {"log10": "klog10"})
+    out += upd
     out += ["(* the iteration with the translated updates plugged into the skeleton of Model/Prinz.v *)",
             "Definition py_sweep {K : Type} (o : Ops K) := sweep (py_diag o) (py_offdiag o).",
             "Definition pyx_sweep {K : Type} (o : Ops K) := sweep (pyx_diag o) (pyx_offdiag o).", ""]
+    out += ["(* ---- the stopping rule: pseudo log-likelihood terms and convergence test *)"] + stop_py + stop_pyx
+    out += ["(* the whole function (guards, loop with stopping rule and iteration cap, normalisation, warning flag) *)",
+            "Definition py_run_stop {K : Type} (o : Ops K) (lo : LOps K) :=",
+            "  prinz_run_stop o (py_diag o) (py_offdiag o) (py_diag_logl o lo) (py_offdiag_logl o lo) (py_continue o lo).",
+            "Definition pyx_run_stop {K : Type} (o : Ops K) (lo : LOps K) :=",
+            "  prinz_run_stop o (pyx_diag o) (pyx_offdiag o) (pyx_diag_logl o lo) (pyx_offdiag_logl o lo) (pyx_continue o lo).", ""]
     return {"Gen/PrinzGen.v": "\n".join(out)}
 
 
